@@ -63,12 +63,30 @@ def split_top(s, sep=","):
     return out
 
 
+CONST_ITEMS = {}
+
+
 def parse_mir(text):
     funcs = []
     lines = text.split("\n")
+    CONST_ITEMS.clear()
     i = 0
     while i < len(lines):
         ln = lines[i]
+        cm = re.match(r"^const (.+): ([^=]+?) = (.*)$", ln)
+        if cm:
+            name = cm.group(1).split("::")[-1]
+            if cm.group(3).strip() == "{":
+                j = i + 1
+                while j < len(lines) and lines[j] != "}":
+                    j += 1
+                body = "fn %s() -> %s {\n%s\n}" % (cm.group(1), cm.group(2), "\n".join(lines[i + 1:j]))
+                CONST_ITEMS.setdefault(name, []).append(("body", cm.group(1) + " : " + cm.group(2), body))
+                i = j + 1
+            else:
+                CONST_ITEMS.setdefault(name, []).append(("expr", cm.group(1) + " : " + cm.group(2), cm.group(3).strip().rstrip(";")))
+                i += 1
+            continue
         if ln.startswith("fn "):
             m = _FN_RE.match(ln) or _FN_RE_UNIT.match(ln)
             j = i + 1
@@ -109,6 +127,36 @@ def parse_mir(text):
         else:
             i += 1
     return funcs
+
+
+def strip_generics(s):
+    """remove `::<...>` turbofish segments (balanced) from a path expression"""
+    out, i = "", 0
+    while i < len(s):
+        if s.startswith("::<", i):
+            depth, j = 0, i + 2
+            while j < len(s):
+                if s[j] == "<":
+                    depth += 1
+                elif s[j] == ">" and s[j - 1] != "-":
+                    depth -= 1
+                    if depth == 0:
+                        break
+                j += 1
+            i = j + 1
+        else:
+            out += s[i]
+            i += 1
+    return out
+
+
+def parse_mir_keep(text):
+    """parse without clearing the constant table"""
+    saved = dict(CONST_ITEMS)
+    r = parse_mir(text)
+    CONST_ITEMS.clear()
+    CONST_ITEMS.update(saved)
+    return r
 
 
 # ------------------------------------------------------------------ values
@@ -160,6 +208,8 @@ class Machine:
                 if ret is not None and f.ret != ret:
                     continue
                 hits.append(f)
+        if len(hits) > 1 and all(c.name == hits[0].name and c.params == hits[0].params and c.ret == hits[0].ret for c in hits):
+            hits = hits[-1:]
         if len(hits) != 1:
             raise Unsupported("function lookup %r %r -> %r: %d matches" % (suffix, param_types, ret, len(hits)))
         return hits[0]
@@ -184,7 +234,22 @@ class Machine:
             return Opaque("str", {"s": s})
         if s == "()":
             return Adt("()", [])
-        m = re.match(r"^(.*)$", s)
+        # named constant: evaluate its MIR item
+        key = s.split("::")[-1]
+        items = CONST_ITEMS.get(key, [])
+        if "::" in s and len(items) > 1:
+            qual = s.split("::")[-2]
+            items = [it for it in items if qual in it[1]] or items
+        if len(items) == 1:
+            kind, _, payload = items[0]
+            if kind == "expr":
+                return self.operand({}, payload)
+            f = parse_mir_keep(payload)[0]
+            outs = self.exec_fn(f, [])
+            rets = [v for (c, k, v) in outs if k == "ret"]
+            if len(rets) == 1 and len(outs) == 1:
+                return rets[0]
+            raise Unsupported("constant %s does not evaluate to a single value" % s)
         return Opaque("const", {"s": s})
 
     # ---- places
@@ -244,9 +309,9 @@ class Machine:
     # ---- rvalues
     def rvalue(self, env, f, dst, rv):
         rv = rv.strip()
-        if rv.startswith(("copy ", "move ", "const ")) and " as " not in rv:
-            return self.operand(env, rv)
         m = re.match(r"^(copy|move|const) (.+) as (\w+) \((\w+)\)$", rv)
+        if rv.startswith(("copy ", "move ", "const ")) and not m:
+            return self.operand(env, rv)
         if m:
             v = self.operand(env, m.group(1) + " " + m.group(2))
             kind, ty = m.group(4), m.group(3)
@@ -287,6 +352,12 @@ class Machine:
                 return Opaque("discr", {"variant": v.variant})
             raise Unsupported("discriminant of %r" % v)
         # aggregates
+        rv_ng = strip_generics(rv)
+        m = re.match(r"^(Option|Result|std::option::Option|std::result::Result)::(\w+)(?:\((.*)\))?$", rv_ng)
+        if m:
+            argstr = m.group(3)
+            flds = [self.operand(env, x) for x in split_top(argstr)] if argstr else []
+            return Adt(m.group(1).split("::")[-1], flds, m.group(2))
         if rv.startswith("(") and rv.endswith(")"):
             return Adt("tuple", [self.operand(env, x) for x in split_top(rv[1:-1])])
         m = re.match(r"^([\w:<>, &\[\]']+?)::(\w+)\((.*)\)$", rv)
@@ -305,6 +376,9 @@ class Machine:
                 fn_, fv = fld.split(":", 1)
                 fields.append(self.operand(env, fv))
             return Adt(m.group(1), fields)
+        m = re.match(r"^([A-Za-z_][\w:]*)$", rv)
+        if m and "::" in rv:
+            return Adt(rv, [])
         raise Unsupported("rvalue %r" % rv)
 
     def _signed_of(self, f, opnd):
@@ -359,6 +433,9 @@ class Machine:
                     # inherent method `Ty::meth`: MIR name is `mod::<impl at ..>::meth`; the impl's
                     # Self type is not in the name, so demand uniqueness of (method, arity)
                     cands.append(f)
+        if len(cands) > 1 and all(c.name == cands[0].name and c.params == cands[0].params and c.ret == cands[0].ret for c in cands):
+            # `const fn`s are dumped twice (CTFE and runtime MIR of the same item)
+            cands = cands[-1:]
         if len(cands) != 1:
             raise Unsupported("call to %r: %d candidate MIR bodies, no model" % (name, len(cands)))
         return cands[0]
@@ -426,7 +503,26 @@ class Machine:
             m = re.match(r"^drop\(.+\) -> \[return: (bb\d+), unwind.*\]$", s)
             if m:
                 return self._exec_block(f, m.group(1), env, cond, outcomes, onpath, counter)
-            m = re.match(r"^(.+?) = (.+?)\((.*)\) -> \[return: (bb\d+), unwind.*\]$", s)
+            m = None
+            m0 = re.match(r"^(.+?) = (.+\)) -> \[return: (bb\d+), unwind.*\]$", s)
+            if m0:
+                # split `callee(args)` at the parenthesis that matches the final one
+                ca = m0.group(2)
+                depth, k = 0, len(ca) - 1
+                while k >= 0:
+                    if ca[k] == ")":
+                        depth += 1
+                    elif ca[k] == "(":
+                        depth -= 1
+                        if depth == 0:
+                            break
+                    k -= 1
+                if k > 0:
+                    class _M:
+                        pass
+                    m = _M()
+                    grp = {1: m0.group(1), 2: ca[:k], 3: ca[k + 1:-1], 4: m0.group(3)}
+                    m.group = lambda i, grp=grp: grp[i]
             if m and not m.group(2).strip() in BINOPS and not re.match(r"^(copy|move|const|&)", m.group(2).strip()):
                 dst, callee, argstr, nxt = m.group(1), m.group(2).strip(), m.group(3), m.group(4)
                 args = [self.operand(env, a) for a in split_top(argstr)] if argstr.strip() else []
@@ -462,7 +558,7 @@ class Machine:
         if z3.is_bv(v):
             return v == z3.BitVecVal(k, v.size())
         if isinstance(v, Opaque) and v.tag == "discr":
-            idx = {"None": 0, "Some": 1, "Ok": 0, "Err": 1, "Less": -1, "Equal": 0, "Greater": 1}.get(v.data["variant"])
+            idx = {"None": 0, "Some": 1, "Ok": 0, "Err": 1, "Less": -1, "Equal": 0, "Greater": 1, "Continue": 0, "Break": 1}.get(v.data["variant"])
             if idx is None:
                 raise Unsupported("discriminant of %r" % v)
             return z3.BoolVal(idx == k or (idx == -1 and k in (255, 2 ** 64 - 1)))
@@ -612,6 +708,13 @@ def m_unwrap_or(mach, name, args):
 def m_max_min(kind):
     def f(mach, name, args):
         a, b = args
+        if isinstance(a, Adt) and isinstance(b, Adt) and len(a.fields) == 1 and z3.is_bv(a.fields[0]):
+            # derived Ord on a newtype over an unsigned integer compares the field
+            x, y = a.fields[0], b.fields[0]
+            r = z3.If(z3.UGT(x, y), x, y) if kind == "max" else z3.If(z3.ULT(y, x), y, x)
+            return [(T(), "ret", Adt(a.name, [r], a.variant))]
+        if not (z3.is_bv(a) and z3.is_bv(b)):
+            raise NotMine()
         if kind == "max":
             return [(T(), "ret", z3.If(z3.UGT(a, b), a, b))]  # cmp::max returns b when equal: same value
         return [(T(), "ret", z3.If(z3.ULT(b, a), b, a))]
@@ -658,7 +761,32 @@ def m_div_ceil(mach, name, args):
             (b != 0, "ret", z3.If(r != 0, q + 1, q))]
 
 
+def m_try_branch(mach, name, args):
+    (r,) = args
+    if not isinstance(r, Adt) or r.variant not in ("Ok", "Err"):
+        raise Unsupported("Try::branch on %r" % (r,))
+    if r.variant == "Ok":
+        return [(T(), "ret", Adt("ControlFlow", [r.fields[0]], "Continue"))]
+    return [(T(), "ret", Adt("ControlFlow", [Adt("Result", [r.fields[0]], "Err")], "Break"))]
+
+
+def m_from_residual(mach, name, args):
+    (r,) = args
+    if not isinstance(r, Adt) or r.variant != "Err":
+        raise Unsupported("from_residual on %r" % (r,))
+    return [(T(), "ret", Adt("Result", [r.fields[0]], "Err"))]
+
+
+def m_deref(mach, name, args):
+    (r,) = args
+    v = r.val if isinstance(r, Ref) else r
+    return [(T(), "ret", v if isinstance(v, Ref) else Ref(v))]
+
+
 CORE_MODELS = {
+    r"^<Result<.*> as (std::ops::)?Try>::branch$": m_try_branch,
+    r"^<Result<.*> as (std::ops::)?FromResidual<.*>>::from_residual$": m_from_residual,
+    r"^<Arc<.*> as (std::ops::)?Deref>::deref$": m_deref,
     r"^core::num::<impl \w+>::saturating_add$": m_saturating("add"),
     r"^core::num::<impl \w+>::saturating_sub$": m_saturating("sub"),
     r"^core::num::<impl \w+>::saturating_mul$": m_saturating("mul"),
